@@ -140,6 +140,23 @@ def r1_confinement(program, rep, inline):
                       construct="%s positive count" % kind, node=call,
                       fail="%s may be issued with a non-positive count %r; "
                            "state: %s" % (what, n, st))
+            # the position moves only after the transfer has been issued:
+            # a transfer that raises leaves the position where it was
+            moves = [n_ for n_ in it.cfg.nodes if n_.kind == "stmt" and
+                     isinstance(n_.ast, (ast.Assign, ast.AugAssign)) and any(
+                         chain(t_) == "self._offset" for t_ in (
+                             n_.ast.targets if isinstance(n_.ast, ast.Assign)
+                             else [n_.ast.target]))]
+            early = [m_ for m_ in moves if it.cfg.reaches(m_, node) and
+                     not it.cfg.dominates(node, m_)]
+            rep.check(not early, "C13-R4", inst, "the position is advanced "
+                      "only after %s has been issued (a failing transfer "
+                      "leaves it unchanged)" % kind,
+                      construct="%s before position update" % kind,
+                      node=call,
+                      fail="the position is advanced before %s is issued: "
+                           "when the transfer raises, the position has moved "
+                           "although nothing was transferred" % kind)
             # R4: position bookkeeping on every return after this call
             off0 = Poly.atom("self._offset@0")
             for ret in returns_of(meth):
